@@ -755,6 +755,9 @@ class STensor:
             return STensor.from_flat([int(v) for v in self.flat()], self.shape, dt)
         if dt is BOOL:
             return STensor.from_flat([not to_rat(v).is_zero() for v in self.flat()], self.shape, BOOL)
+        if dt.is_floating_point and self.dtype.is_floating_point and self.ndim > 0 and \
+                _FLOAT_WIDTH.get(dt.name, 32) < _FLOAT_WIDTH.get(self.dtype.name, 32):
+            PRECISION_EVENTS.append((f"cast {self.dtype.name}->{dt.name}", dt.name))  # narrowing cast of a dimensioned tensor
         if not dt.is_floating_point and self.dtype.is_floating_point:
             vals = []
             for v in self.flat():
@@ -2035,6 +2038,13 @@ def _ntuple(x, D):
     return v
 
 
+def _conv_dtype(input: STensor, weight: STensor) -> DType:
+    """torch's convolutions require input and weight of the same floating type; the result has that type."""
+    if input.dtype.is_floating_point and weight.dtype.is_floating_point and input.dtype.name != weight.dtype.name:
+        raise InterpError("RuntimeError", f"expected scalar type {input.dtype.name} but found {weight.dtype.name} (convolution input vs weight)")
+    return input.dtype if input.dtype.is_floating_point else FLOAT
+
+
 def convnd(input: STensor, weight: STensor, bias=None, stride=1, padding=0, dilation=1, groups=1) -> STensor:
     """Model of F.conv{1,2,3}d (cross-correlation, documented semantics)."""
     D = input.ndim - 2
@@ -2076,7 +2086,7 @@ def convnd(input: STensor, weight: STensor, bias=None, stride=1, padding=0, dila
                         if not (a.is_zero() or b.is_zero()):
                             acc = acc + a * b
                 vals.append(acc)
-    out = STensor.from_flat(vals, [N, Cout] + out_sp, FLOAT)
+    out = STensor.from_flat(vals, [N, Cout] + out_sp, _conv_dtype(input, weight))
     if bias is not None:
         out = out.add(bias.reshape([1, Cout] + [1] * D))
     return out
@@ -2122,7 +2132,7 @@ def conv_transpose_nd(input: STensor, weight: STensor, bias=None, stride=1, padd
                         key = (n, g * cout_g + co) + tuple(pos)
                         acc[key] = acc.get(key, Rat.of(0)) + a * b
     vals = [acc.get(ix, Rat.of(0)) for ix in itertools.product(*[range(x) for x in [N, Cout] + out_sp])]
-    out = STensor.from_flat(vals, [N, Cout] + out_sp, FLOAT)
+    out = STensor.from_flat(vals, [N, Cout] + out_sp, _conv_dtype(input, weight))
     if bias is not None:
         out = out.add(bias.reshape([1, Cout] + [1] * D))
     return out
